@@ -133,6 +133,16 @@ fn main() {
                 writeln!(w, "{}", l).unwrap();
             }
         }
+        Some("ext") => {
+            // `harness ext <entry> <x-hex text>`: the E column a `total` request of a typed document
+            // reader carries (used to write corpus lines by hand)
+            let entry = &args[2];
+            let text = util::ds(&args[3]).expect("x<hex>");
+            match total::typed_kind(entry).and_then(|k| typeddoc::ext_column_kind(k, &text)) {
+                Some(e) => println!("total\t{}\t{}\t{}", entry, args[3], e),
+                None => println!("total\t{}\t{}", entry, args[3]),
+            }
+        }
         Some("worker") => {
             std::panic::set_hook(Box::new(|_| {}));
             let stdin = std::io::stdin();
